@@ -284,9 +284,10 @@ class MgmComputation(VariableComputation):
 
         if not self._neighbors:
             # If a variable has no neighbors, we must select its final value immediately
-            # as it will never receive any message.
-            value, cost = optimal_cost_value(self._variable, self._mode)
-            self.value_selection(value, cost)
+            # as it will never receive any message. It may still have unary
+            # constraints, which must be accounted for together with its own cost.
+            values, cost = self._compute_best_value()
+            self.value_selection(random.choice(values), cost)
 
             if self.logger.isEnabledFor(logging.INFO):
                 self.logger.info(
@@ -465,7 +466,7 @@ class MgmComputation(VariableComputation):
         # The cost of our own candidate value is part of what we optimize
         var_val, rel_val = find_arg_optimal(
             self.variable,
-            lambda x: functools.reduce(operator.add, [f(x) for f in reduced_cs])
+            lambda x: functools.reduce(operator.add, [f(x) for f in reduced_cs], 0)
             + self.variable.cost_for_val(x),
             self._mode,
         )
